@@ -14,7 +14,7 @@ PROPS["C01"] = dict(
                  "generator are correct", "tolerance kappa=10 x FEASTOL/OPTTOL as fixed in DESIGN.md 3.5"],
     min_nontrivial=dict(quick=500, thorough=20000),
     stages=[dict(name="planted", target="solve", x=dict(prop="C01"),
-                 quick=dict(cases=600, maxsize=70), thorough=dict(cases=12000, maxsize=100))],
+                 quick=dict(cases=4000, maxsize=80), thorough=dict(cases=150000, maxsize=100))],
 )
 
 PROPS["C02"] = dict(
